@@ -447,6 +447,8 @@ def _multi(ctx, ip, arm, elems_field, value_suffix, container, adder, new_fn):
     it_ok = len(nexts) == 1 and all(i[0] == "iter" and i[1] == ("field", NODE, elems_field) for i in ip.o.of_operand(b.blocks[nexts[0]]["term"]["args"][0]))
     chk(ctx, ip, arm, "collects-all", member and uncond and it_ok, "every member is evaluated against the current node and its result is collected unconditionally, in source order")
     dest = ip.o.of_operand(at["args"][0])
+    # an accumulator handed round a loop (`acc = step(acc, item)?`): what it is, apart from itself
+    dest = {y for x in dest for y in ([z for z in ip.o.of_local(x[1]) if z[0] != "cycle"] if x[0] == "cycle" else [x])}
     arr = [(ob, t) for ob, t in arm.oks if edge_dominates(b, (blk, ft), ob)]
     ok = len(arr) == 1 and all(t[0] == "agg" and t[1] == f"{V}::{container}" and set(t[2][0]) == dest for t in arr[0][1]) and \
         all(d[0] == "call" and d[1] == new_fn for d in dest)
